@@ -1,6 +1,6 @@
 (* C17 - chemistry reductions: the verified checker and the product homomorphism used to rebuild (sum g a+a)^2. *)
 From Coq Require Import NArith List Bool.
-From OFV Require Import Base.Cplx Base.Lin Sem.FermiSem Model.LadderOp Thm.C01.FermiHom Check.OpEquiv.
+From OFV Require Import Base.Cplx Base.Lin Sem.FermiSem Model.LadderOp Thm.C01.FermiHom Check.OpEquiv Thm.C17.RDMIdentities.
 Import ListNotations.
 Theorem C17_fermion_product_hom : forall a b s, leq N.eqb (fden (fmul a b) s) (lbind (fden b s) (fden a)).
 Proof. exact fmul_hom. Qed.
@@ -8,3 +8,17 @@ Print Assumptions C17_fermion_product_hom.
 Theorem C17_fermi_equiv_sound : forall f g, fermi_equiv f g = true -> forall s, leq N.eqb (fden f s) (fden g s).
 Proof. exact fermi_equiv_sound. Qed.
 Print Assumptions C17_fermi_equiv_sound.
+
+(* [B] the operator identities behind the RDM mapping functions hold for every index tuple over 4 modes
+   (every coincidence pattern of four indices), as decided by the sound checker above *)
+Theorem C17_rdm_two_hole_identity_4 : forallb two_hole_ok (idx4 4) = true.
+Proof. exact rdm_two_hole_identity_4. Qed.
+Print Assumptions C17_rdm_two_hole_identity_4.
+Theorem C17_rdm_particle_hole_identity_4 : forallb particle_hole_ok (idx4 4) = true.
+Proof. exact rdm_particle_hole_identity_4. Qed.
+Theorem C17_rdm_one_hole_identity_4 : forallb one_hole_ok (idx2 4) = true.
+Proof. exact rdm_one_hole_identity_4. Qed.
+Theorem C17_rdm_contractions_4 :
+  forallb (fun n => forallb (fun x => contr_particle_ok n x && contr_hole_ok n x && contr_ph_ok n x) (idx2 n)) (seq 1 4) = true.
+Proof. exact rdm_contractions_4. Qed.
+Print Assumptions C17_rdm_contractions_4.
